@@ -19,8 +19,9 @@ def run(tier, seed):
     c.add_tlc(r, f"adversary plans: 11 entry points x strict/relaxed x 31 mutation kinds x {sites} sites x 3 variants; capture/re-decode "
                  "table (CapImpliesRed); TypeOk; every run plan terminates (liveness under weak fairness of Decode)")
     cases = r.replay
-    path = write_ndjson(os.path.join(wd, "cases.ndjson"), cases)
-    s = vh(["replay", "decoders", path, "--sites", str(sites)], timeout=5400)
+    write_ndjson(os.path.join(wd, "cases.ndjson"), cases)
+    # the allocation meter is per process, so the plans can be spread over several harness processes
+    s = vlib.vh_parallel("replay", "decoders", cases, wd, jobs=8 if quick else 14, extra=["--sites", str(sites)], timeout=5400)
     if not s["violations"] and (s.get("outcome_value", 0) < 500 or s.get("outcome_error", 0) < 5000 or s.get("capred_lookup_reached", 0) < 4):
         raise vlib.ToolError("vacuous: too few decoded values / refusals / revocation lookups reached")
     c.add_harness(s, "every plan applied to every valid object of the entry point's type (objects built with real keys plus the repository's "
